@@ -74,9 +74,18 @@ def signed (neg : Bool) (mag : Nat) : Nat := if neg then mag + 2147483648 else m
 /-- overflow of the rounded magnitude saturates to the +∞ pattern. -/
 def clampInf (bits : Nat) : Nat := if 0x7f800000 ≤ bits then 0x7f800000 else bits
 
-/-- nearest-even binary32 magnitude of the positive rational `n / d` (`n, d > 0`);
-    overflow → +∞ pattern, gradual underflow to subnormals / zero. -/
-def roundPos (n d : Nat) : Nat :=
+/-- significand of a non-negative pattern (hidden bit included for normals). -/
+def mm (p : Nat) : Nat := if p / 8388608 = 0 then p % 8388608 else p % 8388608 + 8388608
+/-- exponent of a non-negative pattern relative to 2^-149 (`Nat` subtraction: subnormals and the first
+    binade both have 0). -/
+def ee (p : Nat) : Nat := p / 8388608 - 1
+/-- exact value of the non-negative pattern `p` in units of 2^-149 (for `p < 0x7f800000` this is the
+    binary32 value; it is strictly increasing in `p`, which is why bit order = value order). -/
+def V (p : Nat) : Nat := mm p * 2 ^ ee p
+
+/-- candidate for the greatest pattern whose value is `≤ n/d`, computed directly: binade by `log2`,
+    then the truncated significand. Only a candidate: `floorPat` verifies it. -/
+def fastFloor (n d : Nat) : Nat :=
   let e0 : Int := (n.log2 : Int) - (d.log2 : Int)
   let ge : Bool := if 0 ≤ e0 then decide (d * 2 ^ e0.toNat ≤ n) else decide (d ≤ n * 2 ^ (-e0).toNat)
   let e : Int := if ge then e0 else e0 - 1
@@ -84,9 +93,31 @@ def roundPos (n d : Nat) : Nat :=
   let num : Nat := if 0 ≤ q then n else n * 2 ^ (-q).toNat
   let den : Nat := if 0 ≤ q then d * 2 ^ q.toNat else d
   let m := num / den
-  let r := num % den
-  let m' := if den < 2 * r ∨ (2 * r = den ∧ m % 2 = 1) then m + 1 else m
-  clampInf (if e < -126 then m' else (e + 126).toNat * 8388608 + m')
+  if e < -126 then m else (e + 126).toNat * 8388608 + m
+
+def floorStep (N d k p : Nat) : Nat := if V (p + 2 ^ k) * d ≤ N then p + 2 ^ k else p
+
+/-- bit-by-bit search (from bit `k-1` down) for the greatest pattern `p` with `V p · d ≤ N`. -/
+def floorLoop (N d : Nat) : Nat → Nat → Nat
+  | 0, p => p
+  | k + 1, p => floorLoop N d k (floorStep N d k p)
+
+/-- greatest pattern whose value is `≤ n/d` (value in units of 2^-149, so `V p · d ≤ n · 2^149`):
+    the fast candidate when it passes the defining check, the 31-step search otherwise. -/
+def floorPat (n d : Nat) : Nat :=
+  let N := n * 2 ^ 149
+  let c := fastFloor n d
+  if V c * d ≤ N ∧ N < V (c + 1) * d then c else floorLoop N d 31 0
+
+/-- nearest-even binary32 magnitude of the positive rational `n / d` (`n, d > 0`): the floor pattern
+    `p`, or `p + 1` when `n/d` is above the midpoint of `V p` and `V (p+1)` (ties: to the even
+    pattern = even significand); overflow → +∞ pattern, gradual underflow to subnormals / zero. -/
+def roundPos (n d : Nat) : Nat :=
+  let N := n * 2 ^ 149
+  let p := floorPat n d
+  let lo := V p * d
+  let hi := V (p + 1) * d
+  clampInf (if lo + hi < 2 * N ∨ (lo + hi = 2 * N ∧ p % 2 = 1) then p + 1 else p)
 
 /-- round `(-1)^neg · m · 2^e` (`m > 0`). -/
 def roundDyadic (neg : Bool) (m : Nat) (e : Int) : Nat :=
@@ -171,8 +202,12 @@ def truncNat (b : Nat) : Nat :=
   | .fin false m e => if 0 ≤ e then m * 2 ^ e.toNat else m / 2 ^ (-e).toNat
   | _ => 0
 
-/-- exact conversion of a small natural (`< 2^24`) to f32 bits. -/
-def ofNatF (n : Nat) : Nat := if n = 0 then 0 else roundPos n 1
+/-- `n as f32`: below 2^24 the conversion is exact and the pattern is written down directly (exponent
+    field `log2 n + 127`, significand `n` shifted to 24 bits); larger values are rounded. -/
+def ofNatF (n : Nat) : Nat :=
+  if n = 0 then 0
+  else if n < 16777216 then (n.log2 + 127) * 8388608 + (n * 2 ^ (23 - n.log2) - 8388608)
+  else roundPos n 1
 
 /-! ## trig.rs -/
 
@@ -482,10 +517,11 @@ def Q4.normalize (da : Bool) (q : Q4) : Option Q4 :=
     let inv := fdiv oneBits len
     Q4.mk' da (fmul q.x inv) (fmul q.y inv) (fmul q.z inv) (fmul q.w inv)
 
-/-- `Quat::from_axis_angle`; `trig` is `sin_cos_f32` (`none` = panic). -/
+/-- `Quat::from_axis_angle`; `trig` is `sin_cos_f32` (`none` = panic). The identity is returned for a
+    tiny axis and (since `fix: from_axis_angle …`) whenever `|axis|²` is not finite. -/
 def Q4.fromAxisAngle (da : Bool) (trig : Nat → Option (Nat × Nat)) (axis : V3) (angle : Nat) : Option Q4 :=
   let lenSq := axis.dot axis
-  if fle lenSq (fmul epsBits epsBits) then some Q4.identity
+  if fle lenSq (fmul epsBits epsBits) || !finiteB lenSq then some Q4.identity
   else
     let len := detSqrt lenSq
     let n := axis.scale (fdiv oneBits len)
@@ -550,6 +586,25 @@ def rotEuler (trig : Nat → Option (Nat × Nat)) (yaw pitch roll : Nat) : Optio
     let yx := matMul (listFn (rotMat 1 sy cy)) (listFn (rotMat 0 sp cp))
     some (matMul (listFn yx) (listFn (rotMat 2 sr cr)))
   | _, _, _ => none
+
+/-! ## the rest of the public API: F32Scalar ordering, lib.rs clamp / deg_to_rad / rad_to_deg -/
+
+/-- key of `f32::total_cmp` (sign-magnitude order: −NaN < −∞ < … < −0 < +0 < … < +∞ < +NaN). -/
+def totalKey (b : Nat) : Int := if 2147483648 ≤ b then -((b - 2147483648 : Nat) : Int) - 1 else (b : Int)
+
+/-- `F32Scalar::cmp` on stored values (`Ord`, `PartialOrd`; `PartialEq` is `cmp == Equal`): −1 / 0 / 1. -/
+def scalarCmp (a b : Nat) : Int :=
+  if totalKey a < totalKey b then -1 else if totalKey a = totalKey b then 0 else 1
+
+/-- `warp_math::clamp`: `assert!(min <= max)` (every profile; `none` = panic), then `f32::clamp`. -/
+def clampF (v lo hi : Nat) : Option Nat :=
+  if !(fle lo hi) then none else some (if flt v lo then lo else if flt hi v then hi else v)
+
+def deg360 : Nat := 0x43b40000
+/-- `deg_to_rad`: `value * (TAU / 360.0)` (constant folded in f32). -/
+def degToRad (v : Nat) : Nat := fmul v (fdiv tauBits deg360)
+/-- `rad_to_deg`: `value * (360.0 / TAU)`. -/
+def radToDeg (v : Nat) : Nat := fmul v (fdiv deg360 tauBits)
 
 /-! ## exhaustive-range checksum for `canon` (thorough tier sweeps all 2^32 patterns) -/
 
